@@ -495,7 +495,8 @@ def rbstep_projection(trace, job):
 # ------------------------------------------------------------------------------------------
 # step-level conformance with Flurry.tla (Trace_Flurry)
 
-FL_OPS = {"insert", "get", "get_key_value", "contains_key", "remove", "remove_entry", "try_insert", "compute", "clear", "iter", "reserve"}
+FL_OPS = {"insert", "get", "get_key_value", "contains_key", "remove", "remove_entry", "try_insert", "compute", "clear", "iter", "reserve",
+          "retain", "retain_force"}
 
 
 def flurry_projection(trace, job, consts):
@@ -582,7 +583,10 @@ def flurry_projection(trace, job, consts):
             if e["op"] == "compute" and f not in ("inc", "none", "const"):
                 return None
             o = {"op": e["op"], "k": e.get("k", 0) or 1, "tag": e.get("tag", 0), "v": e.get("v", 0), "pl": e.get("pl", 0), "f": f}
-            if e["op"] in ("clear", "iter", "reserve"):
+            if e["op"] in ("retain", "retain_force"):
+                if f not in ("all", "none", "even", "odd"):
+                    return None
+            if e["op"] in ("clear", "iter", "reserve", "retain", "retain_force"):
                 o["k"] = 1
             if e["op"] == "reserve":
                 o["pl"] = e.get("n", 0)
